@@ -85,7 +85,9 @@ def scan():
         for st in node.body:
             if isinstance(st, (ast.FunctionDef, ast.AsyncFunctionDef)):
                 if st.name in WATCH:
-                    methods.append(st.name)
+                    # a cache / wrapper put on a deciding method shows in the inventory (`broadcast@lru_cache(...)`)
+                    decos = [_deco(d) for d in st.decorator_list if _deco(d) not in ("property", "classmethod", "staticmethod")]
+                    methods.append(st.name + ("@" + ",".join(decos) if decos else ""))
                     digests[f"{name}.{st.name}"] = digest(st)
             elif isinstance(st, (ast.Assign, ast.AnnAssign)):
                 # a class-level `__eq__ = ...` / `__hash__ = None` assignment also overrides
@@ -93,6 +95,9 @@ def scan():
                 for t in tg:
                     if isinstance(t, ast.Name) and t.id in WATCH and (isinstance(st, ast.Assign) or st.value is not None):
                         methods.append(t.id + "=")
+                    elif isinstance(t, ast.Name) and (isinstance(st, ast.Assign) or st.value is not None):
+                        # any other class-level attribute with a value (a field default, or hidden state such as a cache)
+                        methods.append("attr:" + t.id)
         classes.append((name, rel, [b for b in bases if b not in ("ABC",)], sorted(_deco(d) for d in node.decorator_list), sorted(methods)))
     for rel in FILES + ["src/spox/_utils.py"]:
         tree = trees.get(rel)
